@@ -41,7 +41,8 @@ theorem caller_facts :
     Generated.C04.newCursorCallers = ["pkg/cursor.provider.GetOrCreate"] ∧
     Generated.C04.getOrCreateCallers = ["api/rpc.ServerQuerier.query", "pkg/backend.Querier.Query", "pkg/pipe.worker.run"] ∧
     Generated.C04.limitErrorPropagates = true ∧ Generated.C04.limitErrorConstructor = "errors.Errorf" ∧
-    Generated.C04.commitReleasesLast = true ∧ Generated.C04.applyStatePosParsesBeforeMoving = true := by decide
+    Generated.C04.commitReleasesLast = true ∧ Generated.C04.applyStatePosParsesBeforeMoving = true ∧
+    Generated.C04.fieldsCacheRefreshedOnAnyDifference = true := by decide
 
 /-! ## ONE model -/
 
@@ -207,6 +208,66 @@ theorem query_result_attribution [LawfulSourceE σ] [LawfulSource σ] {ω : Type
   have := (It.view_perm_leaves _).mem_iff.mp hv
   obtain ⟨s, hs, hes⟩ := List.mem_flatMap.mp this
   exact ⟨s, hs, e, hes, rfl, hleaf s hs e hes⟩
+
+/-! ## the fields text of the result events (the one-entry cache of both read loops) -/
+
+/-- a result event with the text of its fields -/
+structure ApiEvF where
+  ts : Int
+  msg : Nat
+  tagsText : Nat
+  fieldsText : Nat
+deriving DecidableEq, Repr
+
+/-- the loop body of both `Query` functions as far as the fields go, **as the code is now**: `fld e` = the fields stored with record
+`e` (`0` = none; reading the partition alone returns exactly these), `cf` = the cached fields (`flds`), `ct` = the text made of them
+(`kvsFields`). `if lge.Fields != flds { kvsFields = lge.Fields.AsKVString(); flds = lge.Fields.MakeCopy() }` when the regenerated
+fact `fieldsCacheRefreshedOnAnyDifference` holds; otherwise the narrower refresh that skips events without fields. -/
+def buildResultF (fld : Ev → Nat) : Nat → Nat → List Ev → List ApiEvF
+  | _, _, [] => []
+  | cf, ct, e :: es =>
+    let refresh := if Generated.C04.fieldsCacheRefreshedOnAnyDifference then fld e != cf else (fld e != 0 && fld e != cf)
+    let cf' := if refresh then fld e else cf
+    let ct' := if refresh then fld e else ct
+    ⟨e.ts, e.msg, e.tags, ct'⟩ :: buildResultF fld cf' ct' es
+
+/-- the same with the refresh rule as a parameter (for the counterexample) -/
+def buildResultFWith (any : Bool) (fld : Ev → Nat) : Nat → Nat → List Ev → List ApiEvF
+  | _, _, [] => []
+  | cf, ct, e :: es =>
+    let refresh := if any then fld e != cf else (fld e != 0 && fld e != cf)
+    let cf' := if refresh then fld e else cf
+    let ct' := if refresh then fld e else ct
+    ⟨e.ts, e.msg, e.tags, ct'⟩ :: buildResultFWith any fld cf' ct' es
+
+theorem buildResultF_spec (fld : Ev → Nat) (page : List Ev) : ∀ c : Nat,
+    buildResultF fld c c page = page.map (fun e => ⟨e.ts, e.msg, e.tags, fld e⟩) := by
+  have hf : Generated.C04.fieldsCacheRefreshedOnAnyDifference = true := by decide
+  induction page with
+  | nil => intro c; rfl
+  | cons e es ih =>
+    intro c
+    simp only [buildResultF, hf, if_true, List.map_cons]
+    by_cases h : fld e = c
+    · subst h; simp [ih]
+    · simp [h, ih]
+
+/-- **every event of a query result carries the fields text of its own record** — what reading its partition alone returns —, and
+its tag line, whatever events of other partitions (with other fields, or none) stand before it in the merged stream: the loops
+start with an empty cache (`flds = ""`, `kvsFields = ""`) and refresh it on every difference (regenerated fact). With
+`failing_source_never_gives_incomplete_page`: the result is the first `lim` events of the complete merge, each with its own tag line
+and its own fields. -/
+theorem query_result_fields (fld : Ev → Nat) (page : List Ev) :
+    buildResultF fld 0 0 page = page.map (fun e => ⟨e.ts, e.msg, e.tags, fld e⟩) :=
+  buildResultF_spec fld page 0
+
+/-- the narrower refresh (`len(Fields) > 0 && Fields != flds`) sends an event WITHOUT fields with the text of the previous event:
+partition 1 written with fields `7`, partition 2 without; merged `[e1 (p1), e2 (p2)]` -/
+theorem cex_narrow_refresh_leaks_fields :
+    let fld : Ev → Nat := fun e => if e.tags = 1 then 7 else 0
+    buildResultFWith false fld 0 0 [⟨10, 0, 1⟩, ⟨11, 0, 2⟩] = [⟨10, 0, 1, 7⟩, ⟨11, 0, 2, 7⟩] ∧
+    buildResultFWith true fld 0 0 [⟨10, 0, 1⟩, ⟨11, 0, 2⟩] = [⟨10, 0, 1, 7⟩, ⟨11, 0, 2, 0⟩] := by
+  decide
 
 /-! ## what a held cursor keeps between two requests -/
 
